@@ -99,12 +99,41 @@ def is_refusal(g, n):
     return False
 
 
+# pure Option/Result combinators: the variant of their result is a function of their arguments (closures must be `Fn`)
+COMB_RX = (r"option::Option::<T>::(filter|is_some_and|is_none_or|and_then|map|map_or|map_or_else|ok_or|ok_or_else|and|or|xor|zip|copied|cloned)$|"
+           r"result::Result::<T, E>::(is_ok_and|is_err_and|and_then|map|map_err|ok|err)$")
+
+
+def _closures_are_fn(g, args):
+    """every closure among the arguments is unable to mutate what it captured: no local of its body (captures included) has a
+    `&mut` / `*mut` type, so all it can do with captured state is read it"""
+    ok = True
+
+    def walk(e):
+        nonlocal ok
+        if not isinstance(e, tuple) or not e:
+            return
+        if e[0] == "closure" and isinstance(e[1], str):
+            b = g.prog.bodies.get(e[1])
+            if not b or any(re.search(r"&('\w+ )?mut |\*mut ", l.get("ty", "")) for l in b.get("locals", [])):
+                ok = False
+        for x in e:
+            walk(x)
+    for a in args:
+        walk(a)
+    return ok
+
+
 def pred_key(g, origin):
     cn = origin_call(origin)
     if cn is not None:
         t = g.term(cn)
         if cmatch(t, PRED_RX) or cmatch(t, r"api::types::Types::(log_index|next_log_index)$"):
             return ("call", cpath(t).split("::")[-1], tuple(strip_ids(a) for a in event_args(g, cn)))
+        if cmatch(t, COMB_RX):
+            args = tuple(strip_ids(a) for a in event_args(g, cn))
+            if _closures_are_fn(g, args):
+                return ("call", cpath(t).split("::")[-1], args)
         return None
     e = origin_stmt_expr(g, origin)
     if e is not None and e[0] == "binop":
